@@ -36,8 +36,10 @@ type FnSpec struct {
 	Trusted        bool
 	Inline         bool
 	Lemma          bool
+	GhostEnsures   []*Clause // definitions of ghost state this function owns: assumed at call sites, nothing to prove
 	Safe           []string // property labels under which implicit obligations are checked
 	Unroll         map[int]int
+	UnrollComplete map[int]int // complete unrolling (with an unwinding assertion) when the function is verified by itself
 	AtCall         map[string][]*Clause // call-site assertions: callee name -> clauses evaluated just before the call
 	PureFuncValues bool                 // calls through function-typed fields are assumed side-effect free (user handlers)
 	Thorough       bool                 // checked only in the thorough tier
@@ -120,6 +122,7 @@ type AtInvoke struct {
 
 type Contracts struct {
 	interf    []*InterfDecl
+	ghostWriters []string
 	atInvoke  []*AtInvoke
 	byFn      map[*ssa.Function]*FnSpec
 	list      []*FnSpec
@@ -212,7 +215,7 @@ func (c *Contracts) spec(pkg *ssa.Package, target string, pos string) *FnSpec {
 	if s, ok := c.byFn[fn]; ok {
 		return s
 	}
-	s := &FnSpec{Target: pkg.Pkg.Name() + "." + target, Fn: fn, Invariants: map[int][]*Clause{}, Decreases: map[int]*Clause{}, Unroll: map[int]int{}, Pos: pos}
+	s := &FnSpec{Target: pkg.Pkg.Name() + "." + target, Fn: fn, Invariants: map[int][]*Clause{}, Decreases: map[int]*Clause{}, Unroll: map[int]int{}, UnrollComplete: map[int]int{}, Pos: pos}
 	c.byFn[fn] = s
 	c.list = append(c.list, s)
 	return s
@@ -285,6 +288,20 @@ func (c *Contracts) parseFile(prog *ssa.Program, p *packages.Package, sp *ssa.Pa
 				if s, cl := c.spec(sp, fs[1], pos), clause(splitLabels(fs[2:])); s != nil && cl != nil {
 					s.Ensures = append(s.Ensures, cl)
 				}
+			case "ghost-ensures":
+				// ghost-ensures <target>: the clause DEFINES how the target updates specification-only (ghost) state
+				if !need(2) {
+					continue
+				}
+				if s, cl := c.spec(sp, fs[1], pos), clause(nil); s != nil && cl != nil {
+					s.GhostEnsures = append(s.GhostEnsures, cl)
+				}
+			case "ghost-writer":
+				// ghost-writer <Type>: objects of this type own a ghost byte stream that is empty when they are allocated
+				if !need(2) {
+					continue
+				}
+				c.ghostWriters = append(c.ghostWriters, sp.Pkg.Name()+"."+fs[1])
 			case "invariant":
 				if !need(3) {
 					continue
@@ -316,14 +333,18 @@ func (c *Contracts) parseFile(prog *ssa.Program, p *packages.Package, sp *ssa.Pa
 				if s, cl := c.spec(sp, fs[1], pos), clause(splitLabels(fs[2:])); s != nil && cl != nil {
 					s.PanicsIff = cl
 				}
-			case "unroll":
+			case "unroll", "unroll-complete":
 				if !need(4) {
 					continue
 				}
 				n, _ := strconv.Atoi(fs[2])
 				k, _ := strconv.Atoi(fs[3])
 				if s := c.spec(sp, fs[1], pos); s != nil {
-					s.Unroll[n] = k
+					if fs[0] == "unroll" {
+						s.Unroll[n] = k
+					} else {
+						s.UnrollComplete[n] = k
+					}
 				}
 			case "at-call":
 				// at-call <target> <callee> <labels>: the bound spec function must hold just before target calls callee
